@@ -8,6 +8,7 @@ import re
 import sys
 
 from mc.ir import PV, expr_eval, until_eval
+from mc.ir import re_flags as ir_re_flags
 
 
 class Fail(Exception):
@@ -240,6 +241,9 @@ def parse_pkt(P, ctx, cur, path):
         if d and d['k'] == 'autolength':
             # a freshly parsed packet is enabled: the attribute reads the current length of the tracked field
             vals[fname] = len(vals[d['of']])
+        elif d and d['k'] == 'auto':
+            # ... and an Auto field reads what its computation yields from the parsed values (whatever the data held there)
+            vals[fname] = expr_eval(d['expr'], vals)
     return PV(P['name'], vals), cur
 
 
@@ -286,7 +290,7 @@ def parse_node(node, fname, vals, kinds, opts, ctx, cur, P0, path):
                 raise Fail('marker %r not found in the search window' % m)
             dlen = len(m)
         else:
-            rx = re.compile(node['pat'])
+            rx = re.compile(node['pat'], ir_re_flags(node))
             found = None
             for s in range(0, len(window) + 1):
                 mt = rx.match(window, s)
